@@ -40,6 +40,19 @@ TRUSTED = [
     "floating point: the harness compares float64 intensities with relative tolerance 1e-9 on events whose "
     "polar angles satisfy sin(theta) > 1e-4 (conditioning of acos); observed agreement on invariant cases ~1e-15",
     "event generator and rotation code of bridge/search_C04.py (own numpy code, independent of ampform)",
+    "known findings are identified per COMPARISON by their discriminating feature (bridge/search_C04.py::classify): "
+    "(1) a decaying child that is the opposite-helicity state by the harness' own rule AND a rotation not about z; "
+    "(2) axis-angle alignment with half-integer final spin where the rotated intensity EQUALS the unrotated intensity "
+    "with the sign of all couplings of a subset of the chains flipped (chain ownership of couplings read off unaligned "
+    "one-topology models); (3) DPD with several topologies and initial spin > 0.  Everything else - all topologies "
+    "helicity-state isobars (unaligned spinless or axis-angle, sign-flip events excepted), rotations about z for (1), "
+    "DPD with spin-0 initial state - is a must-hold obligation with its own signature",
+    "compute_wigner_angles: the regenerated alpha/beta/gamma trees are PROVED to be Z-Y-Z Euler angles of the inverse of "
+    "the rotation matrix they are read from, in the code's own RotationZ/RotationY (C04_wigner_euler_angles, "
+    "coq/theories/Rot3Euler.v); that the sliced matrix is compute_wigner_rotation_matrix's product and that the D "
+    "function receives (alpha, beta, gamma) in this order is asserted structurally in symgen; that this matrix is the "
+    "physical Wigner rotation, and the SU(2) sign, are not modelled",
+
     "which topologies count as 'all isobars are helicity states' (the must-hold multi-topology families with "
     "signatures ..._helicity_isobars_only_not_invariant) is decided by the harness' own rule written from the "
     "documentation (opposite state = the sibling whose sorted attached final-state id tuple is lexicographically "
@@ -96,9 +109,13 @@ def run(chk):
         chk.violation(f["signature"], f["what"], {"case": f["case"], "search": "search_C04.py"}, True)
     # signatures of families that ARE invariant on the unchanged tree: a failure there is a fresh
     # concrete input; the others also fail on the unchanged tree and cannot explain a broken proof
-    fresh = [f for f in doc["failures"]
-             if f["signature"].startswith(("single_", "exception_", "wignerD", "wignerd", "opposite_helicity_rule"))
-             or f["signature"].startswith("multi_topology_unaligned_spinless_helicity_isobars_only")]
+    known_on_clean_tree = {
+        "multi_topology_opposite_helicity_isobar_unaligned_spinless_not_invariant_off_z",
+        "multi_topology_opposite_helicity_isobar_axisangle_not_invariant_off_z",
+        "multi_topology_axisangle_chain_relative_sign_flip",
+        "multi_topology_dpd_spinful_initial_state_not_invariant",
+    }
+    fresh = [f for f in doc["failures"] if f["signature"] not in known_on_clean_tree]
     if chk.broken and not fresh:
         b = chk.broken[0]
         chk.violation("unproved:" + b["item"], f"{b['file']}:{b['item']} no longer checks",
